@@ -486,3 +486,105 @@ func hoistedDiffers(bf branchFact, em *Emission, event string) bool {
 	}
 	return false
 }
+
+func init() {
+	register(&Rule{ID: "DT21", Min: 10, Run: ruleDT21,
+		Doc: "recorded-keys-stay-readable: the JSON keys of the event envelope and of every event payload are the on-disk format of every log ever written. For each payload type the keys recorded by ergo so far (the table below, confirmed on the pinned tree) are still the `json` tag of some field of that type: a renamed key makes the binary read back what it writes itself - every test passes - while a tombstone, a claim or a result written by an earlier binary (a store pruned before the upgrade, a peer's clone) decodes to an empty value and silently takes no effect: pruned ids come back, claims vanish. New fields and new keys are not this rule's business; a type that gives itself an UnmarshalJSON decides its own keys and is reported undecided"})
+}
+
+// recordedKeys: payload type -> the keys ergo has recorded for it (pinned tree 480758f .. 22f4279).
+var recordedKeys = map[string][]string{
+	"Event":            {"type", "ts", "data"},
+	"NewTaskEvent":     {"id", "uuid", "epic_id", "state", "title", "body", "created_at"},
+	"StateEvent":       {"id", "state", "ts"},
+	"LinkEvent":        {"from_id", "to_id", "type"},
+	"ClaimEvent":       {"id", "agent_id", "ts"},
+	"TitleUpdateEvent": {"id", "title", "ts"},
+	"BodyUpdateEvent":  {"id", "body", "ts"},
+	"EpicAssignEvent":  {"id", "epic_id", "ts"},
+	"UnclaimEvent":     {"id", "ts"},
+	"TombstoneEvent":   {"id", "agent_id", "ts"},
+	"ResultEvent":      {"task_id", "summary", "path", "sha256_at_attach", "mtime_at_attach", "git_commit_at_attach", "ts"},
+}
+
+func ruleDT21(c *Ctx) {
+	if c.Ergo == nil || c.Ergo.Pkg == nil {
+		c.unk("<module>", "package", "-", "package internal/ergo not found")
+		return
+	}
+	scope := c.Ergo.Pkg.Scope()
+	names := make([]string, 0, len(recordedKeys))
+	for n := range recordedKeys {
+		names = append(names, n)
+	}
+	sortStrings(names)
+	for _, name := range names {
+		obj := scope.Lookup(name)
+		if obj == nil {
+			c.bad("ergo."+name, "type", "-", "the payload type "+name+" no longer exists: events of this kind recorded so far are not decoded into it")
+			continue
+		}
+		st, ok := obj.Type().Underlying().(*types.Struct)
+		if !ok {
+			c.unk("ergo."+name, "type", c.Pos(obj.Pos()), name+" is no longer a struct: its keys are not decided")
+			continue
+		}
+		custom := false
+		for _, t := range []types.Type{obj.Type(), types.NewPointer(obj.Type())} {
+			ms := types.NewMethodSet(t)
+			for i := 0; i < ms.Len(); i++ {
+				if ms.At(i).Obj().Name() == "UnmarshalJSON" {
+					custom = true
+				}
+			}
+		}
+		tags := map[string]bool{}
+		for i := 0; i < st.NumFields(); i++ {
+			tag := structTagJSON(st.Tag(i))
+			if tag == "" {
+				tag = st.Field(i).Name()
+			}
+			tags[tag] = true
+		}
+		for _, key := range recordedKeys[name] {
+			construct := "key " + key
+			switch {
+			case tags[key]:
+				c.ok("ergo."+name, construct, "-", "still the json tag of a field")
+			case custom:
+				c.unk("ergo."+name, construct, "-", name+" has its own UnmarshalJSON: whether the recorded key `"+key+"` is still read is not decided")
+			default:
+				c.bad("ergo."+name, construct, "-", "no field of "+name+" carries the json key `"+key+"` any more: events recorded with it by earlier binaries (or a peer's clone) decode to an empty value and silently take no effect")
+			}
+		}
+	}
+}
+
+func structTagJSON(tag string) string {
+	// `json:"name,omitempty"`
+	const k = `json:"`
+	i := indexOf(tag, k)
+	if i < 0 {
+		return ""
+	}
+	rest := tag[i+len(k):]
+	j := indexOf(rest, `"`)
+	if j < 0 {
+		return ""
+	}
+	v := rest[:j]
+	if c := indexOf(v, ","); c >= 0 {
+		v = v[:c]
+	}
+	return v
+}
+
+func indexOf(s, sub string) int {
+	for i := 0; i+len(sub) <= len(s); i++ {
+		if s[i:i+len(sub)] == sub {
+			return i
+		}
+	}
+	return -1
+}
+
